@@ -241,6 +241,8 @@ def run_transition(chk, prog, T, setup2=None, **xopts):
     orig_init = Obligation.__init__
     ob = chk.run(T.name, prog, harness, bounds=dict(T.sizes, **getattr(T, 'bounds', {})), setup=setup,
                  pre_run=lambda o: setattr(o, 'witnesses', []), **xopts)
+    if ob is None:      # filtered out (VERIF_ONLY)
+        return None
     if not chk.no_replay:
         try:
             T.validate_witnesses(chk, ob, prog, getattr(prog, '_schema', None) or reldb.Schema(prog))
